@@ -64,7 +64,7 @@ func (t *txnReg) brief() string {
 	return fmt.Sprintf("{%s start=%d primary=%s muts=%v pess=%v}", t.Shape, t.Start, t.Primary, ks, t.Pess)
 }
 
-var rawShapes = []string{"base", "committed", "rolledback", "pending", "noprimary", "pess-pending", "pess-half", "pess-committed", "pess-rolledback"}
+var rawShapes = []string{"base", "committed", "rolledback", "pending", "noprimary", "pess-pending", "pess-half", "pess-committed", "pess-rolledback", "pess-wrong-primary"}
 var asyncShapes = []string{"async-full", "async-partial", "async-primary-committed", "async-fallback"}
 var killShapes = []string{"kill-2pc", "kill-pess", "kill-async"}
 
@@ -176,6 +176,8 @@ func (b *popBuilder) add(shape string, n int, run bool) (bool, error) {
 		min = 2
 	case "pess-committed":
 		min = 2 // one of them is the stale extra lock
+	case "pess-wrong-primary":
+		min = 3
 	}
 	if n < min {
 		n = min
@@ -259,6 +261,29 @@ func (b *popBuilder) add(shape string, n int, run bool) (bool, error) {
 				done := append([]string{primary}, b.subset(without(written, primary))...)
 				err = d.commit(start, d.ts(), done)
 				lock(without(keys, done...)...)
+			}
+		}
+	case "pess-wrong-primary":
+		// a committed pessimistic transaction left a stale pessimistic lock whose primary field does not name
+		// the transaction's primary (a statement retried with another primary; pingcap/tidb#42937): its
+		// "rolled back" look must not decide the fate of the transaction's real locks
+		fu := d.ts()
+		extra := without(keys, primary)[0]
+		written := without(keys, extra)
+		t.Pess = keys
+		t.Muts = b.muts(start, written)
+		if err = d.pessLock(start, fu, primary, written, ttl); err == nil {
+			if err = d.pessLock(start, fu, extra, []string{extra}, ttl); err == nil {
+				if err = d.prewrite(start, primary, t.Muts, written, prewriteOpt{ttl: ttl, forUpdateTS: fu}); err == nil {
+					done := append([]string{primary}, b.subset(without(written, primary))...)
+					if b.rng.Intn(2) == 0 {
+						done = nil // ... or the transaction is still pending: everything is rolled back
+					}
+					if len(done) > 0 {
+						err = d.commit(start, d.ts(), done)
+					}
+					lock(without(keys, done...)...)
+				}
 			}
 		}
 	case "pess-rolledback":
@@ -734,13 +759,19 @@ type gcCase struct {
 	Wide    int // size of the wide transactions (0: none)
 	Splits  int // topology changes gated into the GC's RPCs
 	Faults  int // percent of the GC's RPCs that get a fault
+	CutAt   int // > 0: from the CutAt-th RPC of the GC on, every request is lost (the GC has to give up)
 	SPMid   bool
 	Seed    int64
 }
 
 func (c gcCase) String() string {
 	return fmt.Sprintf("%s/%s/strict=%v/keys=%d/txns=%d/regions=%d/limit=%d/rpt=%d/conc=%d/wide=%d/splits=%d/faults=%d%%/spmid=%v",
-		c.Backend, c.Mode, c.Strict, c.NKeys, c.NTxns, c.Regions, c.Limit, c.RPT, c.Conc, c.Wide, c.Splits, c.Faults, c.SPMid)
+		c.Backend, c.Mode, c.Strict, c.NKeys, c.NTxns, c.Regions, c.Limit, c.RPT, c.Conc, c.Wide, c.Splits, c.Faults, c.SPMid) + func() string {
+		if c.CutAt > 0 {
+			return fmt.Sprintf("/cut@%d", c.CutAt)
+		}
+		return ""
+	}()
 }
 
 func keyName(i int) string { return fmt.Sprintf("k%04d", i) }
@@ -882,6 +913,7 @@ func runGCCase(r *vrep.Report, cs gcCase) {
 	var mu sync.Mutex
 	crng := rand.New(rand.NewSource(cs.Seed ^ 0xc14))
 	splitBudget := cs.Splits
+	gcRPCs := 0
 	var splitsDuring, topoDuring, faults atomic.Int64
 	// logical progress bound: every scan request either finds a lock that is then resolved or finishes a region,
 	// apart from retries after (budgeted) faults and topology changes
@@ -900,6 +932,11 @@ func runGCCase(r *vrep.Report, cs gcCase) {
 		}
 		mu.Lock()
 		defer mu.Unlock()
+		gcRPCs++
+		if cs.CutAt > 0 && gcRPCs >= cs.CutAt {
+			faults.Add(1)
+			return uni.Action{Kind: uni.DropReq}
+		}
 		if splitBudget > 0 && (c.Cmd == tikvrpc.CmdScanLock || c.Cmd == tikvrpc.CmdResolveLock) && crng.Intn(100) < 35 {
 			splitBudget--
 			k := keyName(crng.Intn(cs.NKeys))
@@ -1282,15 +1319,23 @@ func TestVerifC14GC(t *testing.T) {
 				cs.Wide = cs.Limit + rng.Intn(cs.Limit+3)
 			}
 		}
-		switch rng.Intn(4) {
-		case 0:
-		case 1:
+		switch rng.Intn(9) {
+		case 0, 1:
+		case 2, 3:
 			cs.Splits = 1 + rng.Intn(4)
-		case 2:
+		case 4, 5:
 			cs.Splits = 1 + rng.Intn(6)
 			cs.Faults = 5 + rng.Intn(10)
-		case 3:
+		case 6, 7:
 			cs.Faults = 3 + rng.Intn(8)
+		case 8:
+			// a storm: the GC may give up (error return); then only the safety half of the oracle applies
+			cs.Splits = rng.Intn(4)
+			cs.Faults = 45 + rng.Intn(35)
+			if rng.Intn(2) == 0 {
+				cs.Faults = rng.Intn(10)
+				cs.CutAt = 2 + rng.Intn(40)
+			}
 		}
 		cs.SPMid = rng.Intn(3) == 0
 		cases = append(cases, cs)
